@@ -1,9 +1,455 @@
 /-
-C01 — GJK distance query (placeholder header, filled below)
+C01 — the GJK distance query (`gjk.gjk` = `gjk_distance_jolt`) returns feasible, consistent and
+optimal closest points.
+
+Strength S2 (DESIGN §1): universal partial-correctness theorems about the executable model
+`D3.GjkJolt.gjkDistance` (the same term the driver runs at `Float`/`Rat`, here at `α := ℝ`) for
+**all** convex sets `A`, `B`, all support mappings `sA`, `sB` satisfying the C03 contract
+(`IsSupport`), every solver satisfying `SolverSpec` (the C18 contract) and every iteration count.
+Termination is C19; a run that exhausts its fuel is the distinct outcome `Err.fuel` and is never
+used to prove anything (all theorems assume `gjkDistance … = .ok res`).
+
+Property theorems only; helper lemmas live in `D3/Proofs/Gjk*.lean`.
+
+Hypotheses, not proved here (see `PARTIAL`/`ASSUMPTIONS` in harness/props/c01.py):
+* `SolverSpec` (C18) and `IsSupport` (C03) are contracts of the parameters;
+* `BarySpec` is *proved* for the C18 model of the three barycentric routines
+  (`joltBary_spec`) outside their named degenerate bands `jnd2/jnd3/jnd4`;
+* the bounds are in exact real arithmetic; `terminates` needs a total solver (C18's `_ok`).
 -/
-import D3.Proofs.GjkSpec
+import D3.Proofs.GjkBary
+import D3.Proofs.GjkTerm
 
 namespace D3
 namespace C01
+open Gjk GjkJolt
+
+/-- everything the theorems assume about the two sets, the support mappings and the solver -/
+structure Setup (A B : V → Prop) (solve : Solver ℝ) (sA sB : V → V) : Prop where
+  convA : ConvexSet A
+  convB : ConvexSet B
+  solver : SolverSpec solve
+  supA : ∀ d, d ≠ zeroV → IsSupport A d (sA d)
+  supB : ∀ d, d ≠ zeroV → IsSupport B d (sB d)
+  /-- the first support point of `A ⊖ B` is not astronomically large (`< (1−ε)·MAX_FLOAT`) -/
+  fin : V3.normSq (sA e1 - sB (-e1)) < (1 - EPS) * MAXF
+
+/-- **(3) `progress_gap`** (pure algebra).  If `v'` has minimum norm in a set `H'` that contains
+the segment from `v` to `w`, then with `g = ⟨v, v − w⟩ > 0`:
+`|v|² − |v'|² ≥ min(g, g²/|v − w|²)`. -/
+theorem progress_gap (H' : V → Prop) (v w v' : V)
+    (hseg : ∀ t : ℝ, 0 ≤ t → t ≤ 1 → H' ((1 - t) * v + t * w))
+    (hmin : ∀ y, H' y → V3.normSq v' ≤ V3.normSq y) (hg : 0 < V3.dot v (v - w)) :
+    min (V3.dot v (v - w)) (V3.dot v (v - w) * V3.dot v (v - w) / V3.normSq (v - w))
+      ≤ V3.normSq v - V3.normSq v' :=
+  Gjk.progress_gap H' v w v' hseg hmin hg
+
+example : min (V3.dot (⟨2, 0, 0⟩ : V) ((⟨2, 0, 0⟩ : V) - ⟨1, 1, 0⟩))
+    (V3.dot (⟨2, 0, 0⟩ : V) ((⟨2, 0, 0⟩ : V) - ⟨1, 1, 0⟩) *
+      V3.dot (⟨2, 0, 0⟩ : V) ((⟨2, 0, 0⟩ : V) - ⟨1, 1, 0⟩) / V3.normSq ((⟨2, 0, 0⟩ : V) - ⟨1, 1, 0⟩))
+    ≤ V3.normSq (⟨2, 0, 0⟩ : V) - V3.normSq (⟨1, 1, 0⟩ : V) := by
+  -- H' = the segment itself, v' = w = (1,1,0) is its min-norm point: g = 2, |v-w|² = 2
+  norm_num [V3.dot_def, V3.normSq_def]
+
+/-- **(4) `weak_duality`.**  If `p`, `q` are support points of `A` along `−v` and of `B` along
+`v` (so `w = p − q` is a support point of `A ⊖ B` along `−v`), then every `a ∈ A`, `b ∈ B`
+satisfy `|a − b| ≥ |v| − g/|v|` with `g = ⟨v, v − w⟩`. -/
+theorem weak_duality (A B : V → Prop) (v p q : V) (hv : 0 < V3.norm v)
+    (hp : IsSupport A (-v) p) (hq : IsSupport B (-(-v)) q) :
+    ∀ a b, A a → B b →
+      V3.norm v - V3.dot v (v - (p - q)) / V3.norm v ≤ V3.norm (a - b) := by
+  intro a b ha hb
+  exact Gjk.weak_duality (MinkDiff A B) v (p - q) hv (IsSupport.minkDiff hp hq) (a - b)
+    ⟨a, b, ha, hb, rfl⟩
+
+/-- **(1) `inv`, one iteration.**  From a state satisfying the invariant (`Yᵢ = Pᵢ − Qᵢ`,
+`Pᵢ ∈ A`, `Qᵢ ∈ B`; the search direction is minus the min-norm point of the hull of the stored
+`Y`, which has positive weights on all of them) every non-clipped return of `_distance_loop`
+satisfies `StepInv`: the stored points are again pre-images, the carried point `x` is the
+min-norm point of the hull of the new prefix with positive weights, and on `Unknown` the full
+invariant holds again. -/
+theorem inv_step {A B : V → Prop} {solve : Solver ℝ} (hsolve : SolverSpec solve)
+    {st : State ℝ} {p q : V} {tolSq maxD : ℝ} (htol : 0 ≤ tolSq)
+    (hst : Stored A B st 3) (hrun : Running tolSq st (p - q)) (hp : A p) (hq : B q)
+    {out : StepOut ℝ} (h : distanceLoopStep solve p q st tolSq maxD = .ok out)
+    (hnc : out.gs ≠ .clipped) : ∃ x v', StepInv A B tolSq st (p - q) out x v' :=
+  step_inv hsolve htol hst hrun hp hq h hnc
+
+/-- the last call of `_distance_loop` of a terminating run, with the invariant of its input -/
+theorem last_step {A B : V → Prop} {solve : Solver ℝ} {sA sB : V → V}
+    (S : Setup A B solve sA sB) {tolSq maxD : ℝ} (htol : 0 ≤ tolSq) {y0 : A4 V} {fuel : Nat}
+    {gs : GjkState} {st' : State ℝ} {it' : Nat}
+    (h : gjkLoop solve sA sB tolSq maxD fuel 0 (gjkInit y0) = .ok (gs, st', it')) :
+    ∃ stIn out, Stored A B stIn 3 ∧ Running tolSq stIn (sA stIn.sd - sB (-stIn.sd)) ∧
+      stIn.sd ≠ zeroV ∧
+      distanceLoopStep solve (sA stIn.sd) (sB (-stIn.sd)) stIn tolSq maxD = .ok out ∧
+      out.gs = gs ∧ out.st = st' ∧ gs ≠ .unknown :=
+  loop_inv S.solver S.supA S.supB htol fuel 0 (gjkInit y0) gs st' it' (stored_init A B y0)
+    (Or.inr ⟨isInit_init y0, S.fin⟩) e1_ne_zero h
+
+/-- **(1) `inv`, every run.**  Whatever the number of iterations, a terminating run of the loop
+ends in a call of `_distance_loop` whose input satisfies the invariant and whose support
+arguments are genuine support points. -/
+theorem inv {A B : V → Prop} {solve : Solver ℝ} {sA sB : V → V}
+    (S : Setup A B solve sA sB) {tolerance maxD : ℝ} {y0 : A4 V} {fuel : Nat}
+    {gs : GjkState} {st' : State ℝ} {it' : Nat}
+    (h : gjkLoop solve sA sB (tolerance * tolerance) maxD fuel 0 (gjkInit y0) = .ok (gs, st', it')) :
+    ∃ stIn out, Stored A B stIn 3 ∧
+      Running (tolerance * tolerance) stIn (sA stIn.sd - sB (-stIn.sd)) ∧
+      IsSupport A stIn.sd (sA stIn.sd) ∧ IsSupport B (-stIn.sd) (sB (-stIn.sd)) ∧
+      distanceLoopStep solve (sA stIn.sd) (sB (-stIn.sd)) stIn (tolerance * tolerance) maxD
+        = .ok out ∧ out.gs = gs ∧ out.st = st' ∧ gs ≠ .unknown := by
+  obtain ⟨stIn, out, hst, hrun, hsd, hstep, hg, hs, hu⟩ := last_step S (mul_self_nonneg _) h
+  have hneg : -stIn.sd ≠ zeroV := by
+    intro h0; apply hsd
+    have hx := congrArg V3.x h0; have hy := congrArg V3.y h0; have hz := congrArg V3.z h0
+    simp at hx hy hz
+    apply V3.ext' <;> simp <;> linarith
+  exact ⟨stIn, out, hst, hrun, S.supA _ hsd, S.supB _ hneg, hstep, hg, hs, hu⟩
+
+/-- inversion of `gjkDistance` -/
+theorem distance_cases {solve : Solver ℝ} {bary : Bary ℝ} {sA sB : V → V}
+    {tolerance maxD sanity : ℝ} {y0 : A4 V} {fuel : Nat} {res : Result ℝ}
+    (h : gjkDistance solve bary sA sB tolerance maxD sanity y0 fuel = .ok res) :
+    ∃ gs st it, gjkLoop solve sA sB (tolerance * tolerance) maxD fuel 0 (gjkInit y0)
+        = .ok (gs, st, it) ∧
+      ((gs = .clipped ∧ res = ⟨true, MAXF, none, none, gs, st, it⟩) ∨
+       (gs ≠ .clipped ∧ gjkFinish bary sanity gs st it = .ok res)) := by
+  unfold gjkDistance at h
+  simp only [bind, Except.bind] at h
+  split at h
+  · cases h
+  · rename_i r hr
+    obtain ⟨gs, st, it⟩ := r
+    refine ⟨gs, st, it, hr, ?_⟩
+    simp only at h
+    split at h
+    · rename_i hc
+      left; exact ⟨hc, by cases h; rfl⟩
+    · rename_i hc
+      right; exact ⟨hc, h⟩
+
+theorem running_vLenSq {tolSq : ℝ} {st : State ℝ} {w : V} (h : Running tolSq st w) :
+    st.vLenSq = V3.normSq st.sd := by
+  rcases h with ⟨x, hsd, _, hv, _⟩ | ⟨⟨_, hsd, hv, _⟩, _⟩
+  · rw [hv, hsd, normSq_neg_one_smul]
+  · rw [hv, hsd]; simp [V3.normSq_def]
+
+/-- **(8) `clipped_only_beyond`.**  The query answers `Clipped` (`MAX_FLOAT, None, None`) only if
+every pair `a ∈ A`, `b ∈ B` is farther apart than `sqrt(max_distance_squared)`. -/
+theorem clipped_only_beyond {A B : V → Prop} {solve : Solver ℝ} {bary : Bary ℝ} {sA sB : V → V}
+    (S : Setup A B solve sA sB) {tolerance maxD sanity : ℝ} {y0 : A4 V} {fuel : Nat}
+    {res : Result ℝ}
+    (h : gjkDistance solve bary sA sB tolerance maxD sanity y0 fuel = .ok res)
+    (hc : res.clipped = true) : ∀ a b, A a → B b → maxD < V3.normSq (a - b) := by
+  obtain ⟨gs, st, it, hloop, hcase⟩ := distance_cases h
+  rcases hcase with ⟨hg, _⟩ | ⟨_, hfin⟩
+  · obtain ⟨stIn, out, _, hrun, hpA, hqB, hstep, hog, _, _⟩ := inv S hloop
+    intro a b ha hb
+    exact step_clipped (A := A) (B := B) (running_vLenSq hrun) (IsSupport.minkDiff hpA hqB) hstep
+      (by rw [hog, hg]) (a - b) ⟨a, b, ha, hb, rfl⟩
+  · obtain ⟨_, _, _, _, hcl, _⟩ := finish_cases hfin
+    rw [hcl] at hc; exact Bool.noConfusion hc
+
+/-- the `StepInv` of the last iteration of a non-clipped run -/
+theorem last_stepInv {A B : V → Prop} {solve : Solver ℝ} {sA sB : V → V}
+    (S : Setup A B solve sA sB) {tolerance maxD : ℝ} {y0 : A4 V} {fuel : Nat}
+    {gs : GjkState} {st' : State ℝ} {it' : Nat}
+    (h : gjkLoop solve sA sB (tolerance * tolerance) maxD fuel 0 (gjkInit y0) = .ok (gs, st', it'))
+    (hc : gs ≠ .clipped) :
+    ∃ stIn out x v', Stored A B stIn 3 ∧
+      Running (tolerance * tolerance) stIn (sA stIn.sd - sB (-stIn.sd)) ∧
+      IsSupport (MinkDiff A B) stIn.sd (sA stIn.sd - sB (-stIn.sd)) ∧
+      StepInv A B (tolerance * tolerance) stIn (sA stIn.sd - sB (-stIn.sd)) out x v' ∧
+      out.gs = gs ∧ out.st = st' ∧ gs ≠ .unknown := by
+  obtain ⟨stIn, out, hst, hrun, hpA, hqB, hstep, hog, hos, hu⟩ := inv S h
+  obtain ⟨x, v', hinv⟩ := step_inv S.solver (mul_self_nonneg _) hst hrun hpA.1 hqB.1 hstep
+    (by rw [hog]; exact hc)
+  exact ⟨stIn, out, x, v', hst, hrun, IsSupport.minkDiff hpA hqB, hinv, hog, hos, hu⟩
+
+/-- **(2) `feasible`, separated exit.**  If the query leaves through `NoIntersection` it returns
+`a ∈ A`, `b ∈ B` (convex combinations of the stored support points with the barycentric weights)
+and `d = |a − b| > tolerance`.  (`tolerance ≥ EPSILON` holds for the default `1e-10`.) -/
+theorem feasible {A B : V → Prop} {solve : Solver ℝ} {bary : Bary ℝ} {sA sB : V → V}
+    (S : Setup A B solve sA sB) {nd2 : V → V → Prop} {nd3 : V → V → V → Prop}
+    {nd4 : V → V → V → V → Prop} (hb : BarySpec bary nd2 nd3 nd4)
+    {tolerance maxD sanity : ℝ} (hte : EPS ≤ tolerance) {y0 : A4 V} {fuel : Nat} {res : Result ℝ}
+    (h : gjkDistance solve bary sA sB tolerance maxD sanity y0 fuel = .ok res)
+    (hnd : NonDeg nd2 nd3 nd4 res.st) (hex : res.exit = .noIntersection) :
+    ∃ a b, res.a = some a ∧ res.b = some b ∧ A a ∧ B b ∧ res.dist = V3.norm (a - b) ∧
+      tolerance < res.dist := by
+  obtain ⟨gs, st, it, hloop, hcase⟩ := distance_cases h
+  rcases hcase with ⟨hg, rfl⟩ | ⟨hg, hfin⟩
+  · simp only at hex; rw [hg] at hex; exact GjkState.noConfusion hex
+  obtain ⟨ab, hccp, _, _, _, hdist, hexit, hrst, hab⟩ := finish_cases hfin
+  obtain ⟨stIn, out, x, v', _, _, _, hinv, hog, hos, _⟩ := last_stepInv S hloop hg
+  rw [hrst] at hnd
+  rw [hexit] at hex
+  subst hos
+  obtain ⟨a, b, rfl, ha, hb', hxe⟩ := ccp_feasible S.convA S.convB hb hinv.stored hinv.closest hnd hccp
+  have htol0 : 0 ≤ tolerance := le_trans EPS_pos.le hte
+  rcases hinv.exits with ⟨hg', _⟩ | ⟨_, _, hvl, _, htl, _⟩ | ⟨hg', _⟩
+  · rw [hog, hex] at hg'; exact GjkState.noConfusion hg'
+  · have hd : Real.sqrt out.st.vLenSq = V3.norm (a - b) := by rw [hvl, hxe, V3.norm_def]
+    have hlt : tolerance < Real.sqrt out.st.vLenSq := by
+      rw [hvl]
+      have : Real.sqrt (tolerance * tolerance) < Real.sqrt (V3.normSq x) :=
+        Real.sqrt_lt_sqrt (mul_self_nonneg _) htl
+      rwa [Real.sqrt_mul_self htol0] at this
+    rcases hab with ⟨hsmall, _⟩ | ⟨_, hra, hrb⟩
+    · linarith
+    · exact ⟨a, b, by simpa using hra, by simpa using hrb, ha, hb', by rw [hdist, hd],
+        by rw [hdist]; exact hlt⟩
+  · rw [hog, hex] at hg'; exact GjkState.noConfusion hg'
+
+/-- **(2)/(6) `exit_intersection`.**  If the query leaves through `Intersection` it returns
+`d = 0` and `a = b = ` the midpoint `m` of a pair `a₀ ∈ A`, `b₀ ∈ B` (so `m` is within
+`|a₀ − b₀|/2` of both sets) with either `a₀ = b₀` — the sets meet; this is the case for the
+`0xf` exit — or `|a₀ − b₀|² ≤ tolerance²`, or `|a₀ − b₀|² ≤ ε·|y|²` for some `y ∈ A ⊖ B`;
+hence `dist(A, B) ≤ max(tolerance, √ε·max|Y|)`. -/
+theorem exit_intersection {A B : V → Prop} {solve : Solver ℝ} {bary : Bary ℝ} {sA sB : V → V}
+    (S : Setup A B solve sA sB) {nd2 : V → V → Prop} {nd3 : V → V → V → Prop}
+    {nd4 : V → V → V → V → Prop} (hb : BarySpec bary nd2 nd3 nd4)
+    {tolerance maxD sanity : ℝ} {y0 : A4 V} {fuel : Nat} {res : Result ℝ}
+    (h : gjkDistance solve bary sA sB tolerance maxD sanity y0 fuel = .ok res)
+    (hnd : NonDeg nd2 nd3 nd4 res.st) (hex : res.exit = .intersection) :
+    res.dist = 0 ∧ ∃ a0 b0, A a0 ∧ B b0 ∧
+      res.a = some ((0.5 : ℝ) * (a0 + b0)) ∧ res.b = some ((0.5 : ℝ) * (a0 + b0)) ∧
+      (a0 = b0 ∨ V3.normSq (a0 - b0) ≤ tolerance * tolerance ∨
+        ∃ y, MinkDiff A B y ∧ V3.normSq (a0 - b0) ≤ EPS * V3.normSq y) := by
+  obtain ⟨gs, st, it, hloop, hcase⟩ := distance_cases h
+  rcases hcase with ⟨hg, rfl⟩ | ⟨hg, hfin⟩
+  · simp only at hex; rw [hg] at hex; exact GjkState.noConfusion hex
+  obtain ⟨ab, hccp, _, _, _, hdist, hexit, hrst, hab⟩ := finish_cases hfin
+  obtain ⟨stIn, out, x, v', _, _, _, hinv, hog, hos, _⟩ := last_stepInv S hloop hg
+  rw [hrst] at hnd
+  rw [hexit] at hex
+  subst hos
+  obtain ⟨a, b, rfl, ha, hb', hxe⟩ := ccp_feasible S.convA S.convB hb hinv.stored hinv.closest hnd hccp
+  rcases hinv.exits with ⟨_, hv0, _, hc⟩ | ⟨hg', _⟩ | ⟨hg', _⟩
+  · have hd0 : Real.sqrt out.st.vLenSq = 0 := by rw [hv0]; exact Real.sqrt_zero
+    refine ⟨by rw [hdist, hd0], a, b, ha, hb', ?_⟩
+    rcases hab with ⟨_, a', b', he, hra, hrb⟩ | ⟨hbig, _⟩
+    · cases he
+      refine ⟨hra, hrb, ?_⟩
+      rcases hc with ⟨_, hx0⟩ | hc | ⟨_, y, hy, hc⟩
+      · left
+        rw [hx0] at hxe
+        have hx := congrArg V3.x hxe; have hy := congrArg V3.y hxe; have hz := congrArg V3.z hxe
+        simp at hx hy hz
+        apply V3.ext' <;> linarith
+      · right; left; rw [hxe]; exact hc
+      · right; right
+        obtain ⟨a', b', ha', hb'', hy'⟩ :=
+          stored_hull_minkDiff S.convA S.convB hinv.stored (mem_hull_of_mem hy)
+        exact ⟨y, ⟨a', b', ha', hb'', hy'⟩, by rw [hxe]; exact hc⟩
+    · rw [hd0] at hbig
+      exact absurd hbig (not_le.mpr EPS_pos)
+  · rw [hog, hex] at hg'; exact GjkState.noConfusion hg'
+  · rw [hog, hex] at hg'; exact GjkState.noConfusion hg'
+
+/-- **(5) `exit_stall_accuracy`.**  If the query leaves through `NoIntersection` (the solver
+reports no improvement, or `prev − |v|² ≤ ε·prev`), the returned `d` exceeds the true distance by
+at most `max(ε·R, √ε·diam)`, where `R` bounds the norms and `diam` the diameter of `A ⊖ B`:
+every pair `a ∈ A`, `b ∈ B` has `|a − b| ≥ d − max(ε·R, √ε·diam)`. -/
+theorem exit_stall_accuracy {A B : V → Prop} {solve : Solver ℝ} {bary : Bary ℝ} {sA sB : V → V}
+    (S : Setup A B solve sA sB) {tolerance maxD sanity : ℝ} {y0 : A4 V} {fuel : Nat}
+    {res : Result ℝ} {R diam : ℝ} (hdiam0 : 0 ≤ diam)
+    (hR : ∀ y, MinkDiff A B y → V3.norm y ≤ R)
+    (hdiam : ∀ y y', MinkDiff A B y → MinkDiff A B y' → V3.normSq (y - y') ≤ diam * diam)
+    (h : gjkDistance solve bary sA sB tolerance maxD sanity y0 fuel = .ok res)
+    (hex : res.exit = .noIntersection) :
+    ∀ a b, A a → B b →
+      res.dist - max (EPS * R) (Real.sqrt EPS * diam) ≤ V3.norm (a - b) := by
+  obtain ⟨gs, st, it, hloop, hcase⟩ := distance_cases h
+  rcases hcase with ⟨hg, rfl⟩ | ⟨hg, hfin⟩
+  · simp only at hex; rw [hg] at hex; exact GjkState.noConfusion hex
+  obtain ⟨ab, _, _, _, _, hdist, hexit, _, _⟩ := finish_cases hfin
+  obtain ⟨stIn, out, x, v', hst, hrun, hsup, hinv, hog, hos, _⟩ := last_stepInv S hloop hg
+  rw [hexit] at hex
+  subst hos
+  have hgo : out.gs = .noIntersection := by rw [hog, hex]
+  -- the returned distance is |x|
+  have hdx : res.dist = V3.norm x := by
+    rcases hinv.exits with ⟨hg', _⟩ | ⟨_, _, hvl, _⟩ | ⟨hg', _⟩
+    · rw [hgo] at hg'; exact GjkState.noConfusion hg'
+    · rw [hdist, hvl, V3.norm_def]
+    · rw [hgo] at hg'; exact GjkState.noConfusion hg'
+  rcases hrun with ⟨x0, hcur⟩ | ⟨hinit, hfin'⟩
+  · obtain ⟨hxle, hacc⟩ := step_stall_accuracy (mul_self_nonneg _) hinv hcur hsup hgo
+    intro a b ha hb
+    have hy := hacc (a - b) ⟨a, b, ha, hb, rfl⟩
+    -- x0 and w are points of A ⊖ B
+    obtain ⟨_, hcl0, _, _, _, _⟩ := hcur
+    obtain ⟨a0, b0, ha0, hb0, hx0⟩ :=
+      stored_hull_minkDiff S.convA S.convB ⟨le_trans hst.1 (by norm_num), hst.2⟩ hcl0.minnorm.1
+    have hx0R := hR x0 ⟨a0, b0, ha0, hb0, hx0⟩
+    have hD := hdiam x0 _ ⟨a0, b0, ha0, hb0, hx0⟩ hsup.1
+    have hnx : V3.norm x ≤ V3.norm x0 := by
+      rw [V3.norm_def, V3.norm_def]; exact Real.sqrt_le_sqrt hxle
+    have h1 : EPS * V3.norm x0 ≤ EPS * R := mul_le_mul_of_nonneg_left hx0R EPS_pos.le
+    have h2 : Real.sqrt (EPS * V3.normSq (x0 - (sA stIn.sd - sB (-stIn.sd))))
+        ≤ Real.sqrt EPS * diam := by
+      calc Real.sqrt (EPS * V3.normSq (x0 - (sA stIn.sd - sB (-stIn.sd))))
+          ≤ Real.sqrt (EPS * (diam * diam)) :=
+            Real.sqrt_le_sqrt (mul_le_mul_of_nonneg_left hD EPS_pos.le)
+        _ = Real.sqrt EPS * diam := by
+            rw [Real.sqrt_mul EPS_pos.le, Real.sqrt_mul_self hdiam0]
+    have := max_le_max h1 h2
+    rw [hdx]
+    linarith
+  · -- first iteration: the relative-progress test cannot fire on a finite first point
+    exfalso
+    obtain ⟨hn0, _, _, hprev⟩ := hinit
+    rcases hinv.exits with ⟨hg', _⟩ | ⟨_, _, _, _, _, hq⟩ | ⟨hg', _⟩
+    · rw [hgo] at hg'; exact GjkState.noConfusion hg'
+    · have hw := hinv.vmin.2 _ (hull_append_right (ys := stIn.Y.pre stIn.nPoints)
+        (sA stIn.sd - sB (-stIn.sd)))
+      rw [hprev] at hq
+      have hM := MAXF_pos
+      nlinarith [EPS_pos]
+    · rw [hgo] at hg'; exact GjkState.noConfusion hg'
+
+/-- **(7) `separated_positive`.**  If every point of `A ⊖ B` has squared norm above `tolerance²`
+and above `ε·|y'|²` for all `y' ∈ A ⊖ B` (i.e. `dist > max(tolerance, √ε·max|A ⊖ B|)`), a
+non-clipped answer is a `NoIntersection` answer with `d > 0`. -/
+theorem separated_positive {A B : V → Prop} {solve : Solver ℝ} {bary : Bary ℝ} {sA sB : V → V}
+    (S : Setup A B solve sA sB) {tolerance maxD sanity : ℝ} {y0 : A4 V} {fuel : Nat}
+    {res : Result ℝ}
+    (hsep : ∀ y, MinkDiff A B y → tolerance * tolerance < V3.normSq y ∧
+      ∀ y', MinkDiff A B y' → EPS * V3.normSq y' < V3.normSq y)
+    (h : gjkDistance solve bary sA sB tolerance maxD sanity y0 fuel = .ok res)
+    (hc : res.clipped = false) : res.exit = .noIntersection ∧ 0 < res.dist := by
+  obtain ⟨gs, st, it, hloop, hcase⟩ := distance_cases h
+  rcases hcase with ⟨_, rfl⟩ | ⟨hg, hfin⟩
+  · simp at hc
+  obtain ⟨ab, _, _, _, _, hdist, hexit, _, _⟩ := finish_cases hfin
+  obtain ⟨stIn, out, x, v', _, _, _, hinv, hog, hos, hu⟩ := last_stepInv S hloop hg
+  subst hos
+  have hni := step_separated S.convA S.convB (mul_self_nonneg _) hinv hsep
+  rcases hinv.exits with ⟨hg', _⟩ | ⟨hg', _, hvl, _, htl, _⟩ | ⟨hg', _⟩
+  · exact absurd hg' hni
+  · refine ⟨by rw [hexit, ← hog, hg'], ?_⟩
+    rw [hdist, hvl]
+    exact Real.sqrt_pos.mpr (lt_of_le_of_lt (mul_self_nonneg _) htl)
+  · rw [hog] at hg'; exact absurd hg' hu
+
+/-- **no failure under the invariant.**  From a state satisfying the invariant, `_distance_loop`
+returns normally whenever the solver does: no `IndexError` on `Y/P/Q`, and the assertion
+`prev_v_len_sq >= v_len_sq` is unreachable (in exact arithmetic). -/
+theorem step_no_failure {A B : V → Prop} {solve : Solver ℝ} (hsolve : SolverSpec solve)
+    (htotal : ∀ Y n prev, 1 ≤ n → n ≤ 4 → ∃ r, solve Y n prev = .ok r)
+    {st : State ℝ} {p q : V} {tolSq maxD : ℝ}
+    (hst : Stored A B st 3) (hrun : Running tolSq st (p - q)) :
+    ∃ out, distanceLoopStep solve p q st tolSq maxD = .ok out :=
+  step_ok hsolve htotal hst hrun
+
+/-- **`terminates`** (also part of C19).  For `tolerance ≠ 0` and a total solver, the `while True`
+loop returns normally for every sufficiently large fuel: each continuing iteration multiplies
+`|v|²` by less than `1 − ε` while it stays above `tolerance²`, so fuel exhaustion is
+unreachable. -/
+theorem terminates {A B : V → Prop} {solve : Solver ℝ} {sA sB : V → V}
+    (S : Setup A B solve sA sB)
+    (htotal : ∀ Y n prev, 1 ≤ n → n ≤ 4 → ∃ r, solve Y n prev = .ok r)
+    {tolerance maxD : ℝ} (htol : tolerance ≠ 0) (y0 : A4 V) :
+    ∃ N, ∀ fuel, N ≤ fuel →
+      ∃ res, gjkLoop solve sA sB (tolerance * tolerance) maxD fuel 0 (gjkInit y0) = .ok res :=
+  loop_terminates S.solver htotal S.supA S.supB S.fin (mul_self_pos.mpr htol) y0
+
+/-- **`BarySpec` holds for the C18 model of the three barycentric routines**
+(`get_barycentric_coordinates_line/plane/tetrahedron`) outside their degenerate bands
+`jnd2` (`|b−a|² ≥ ε²`), `jnd3` (Gram determinant of the two edges used `≥ ε` in absolute value),
+`jnd4` (non-zero volume): so `feasible` and `exit_intersection` apply to `joltBary`. -/
+theorem joltBary_spec : BarySpec (joltBary (α := ℝ)) jnd2 jnd3 jnd4 where
+  line a b u v x hnd h hx := joltBary_line_spec a b u v x hnd h hx
+  plane a b c u v w x hnd h hx := joltBary_plane_spec a b c u v w x hnd h hx
+  tetra a b c d u v w t x hnd h hx := joltBary_tetra_spec a b c d u v w t x hnd h hx
+
+/-- the non-degeneracy predicates are satisfiable: a unit right-angled corner -/
+example : jnd2 (⟨1, 0, 0⟩ : V) ⟨0, 1, 0⟩ ∧ jnd3 (⟨1, 0, 0⟩ : V) ⟨0, 1, 0⟩ ⟨0, 0, 1⟩ ∧
+    jnd4 (⟨1, 0, 0⟩ : V) ⟨0, 1, 0⟩ ⟨0, 0, 1⟩ ⟨-1, -1, -1⟩ := by
+  refine ⟨?_, ?_, ?_⟩
+  · simp only [jnd2, Simplex.EPS2, D3.Gen.gjk__gjk_jolt__EPSILON_SQR, V3.normSq_def, V3.sub_x,
+      V3.sub_y, V3.sub_z]
+    norm_num
+  · simp only [jnd3, absS, Simplex.EPS, D3.Gen.utils__EPSILON, V3.dot_def, V3.sub_x, V3.sub_y,
+      V3.sub_z]
+    norm_num
+  · simp only [jnd4, Simplex.triple, V3.dot_def, V3.cross, V3.sub_x, V3.sub_y, V3.sub_z]
+    norm_num
+
+/-! ### non-vacuity: the hypotheses are satisfiable -/
+
+/-- a solver that only answers for one point, or two coincident points -/
+noncomputable def toySolve : Solver ℝ := fun Y n prev =>
+  open Classical in
+  if n = 1 ∨ (n = 2 ∧ Y.r0 = Y.r1) then
+    .ok ⟨decide (V3.normSq Y.r0 < prev), Y.r0, V3.normSq Y.r0, 1⟩
+  else .error .badInput
+
+theorem hull_single {y x : V} : InHull [y] x ↔ x = y := by
+  constructor
+  · rintro ⟨ws, hl, _, hs, rfl⟩
+    match ws, hl with
+    | [w], _ =>
+      simp at hs; subst hs
+      simp [lincomb, add_zeroV, one_smul_vec]
+  · rintro rfl
+    exact ⟨[1], rfl, by simp, by simp, by simp [lincomb, add_zeroV, one_smul_vec]⟩
+
+theorem toySolve_spec : SolverSpec toySolve := by
+  constructor
+  intro Y n prev r h1 h4 h
+  unfold toySolve at h
+  split at h
+  · rename_i hc
+    cases h
+    have hrel : InRelInt [Y.r0] Y.r0 :=
+      ⟨[1], rfl, by simp, by simp, by simp [lincomb, add_zeroV, one_smul_vec]⟩
+    rcases hc with rfl | ⟨rfl, heq⟩
+    · refine ⟨rfl, by simp, by norm_num, ⟨hull_single.mpr rfl, ?_⟩, by simpa [keep, A4.pre, A4.toList] using hrel, by simp⟩
+      intro y hy
+      rw [show Y.pre 1 = [Y.r0] from rfl, hull_single] at hy
+      rw [hy]
+    · refine ⟨rfl, by simp, by norm_num, ⟨?_, ?_⟩, by simpa [keep, A4.pre, A4.toList] using hrel, by simp⟩
+      · have hsub : [Y.r0].Sublist (Y.pre 2) := by simp [A4.pre, A4.toList]
+        exact hull_sublist hsub (hull_single.mpr rfl)
+      · intro y hy
+        obtain ⟨ws, hl, _, hs, rfl⟩ := hy
+        match ws, hl with
+        | [w0, w1], _ =>
+          have : w0 + w1 = 1 := by simpa using hs
+          have e : lincomb [w0, w1] (Y.pre 2) = Y.r0 := by
+            simp only [A4.pre, A4.toList, List.take, lincomb, ← heq]
+            apply V3.ext' <;> simp <;> (rw [show w0 = 1 - w1 by linarith]; ring)
+          rw [e]
+  · cases h
+
+/-- the hypotheses of all theorems are satisfiable: two singletons `{(2,0,0)}` and `{0}` -/
+example : Setup (fun x : V => x = ⟨2, 0, 0⟩) (fun x : V => x = ⟨0, 0, 0⟩) toySolve
+    (fun _ => ⟨2, 0, 0⟩) (fun _ => ⟨0, 0, 0⟩) where
+  convA := by
+    intro x y hx hy t _ _; rw [hx, hy]; apply V3.ext' <;> simp <;> ring
+  convB := by
+    intro x y hx hy t _ _; rw [hx, hy]; apply V3.ext' <;> simp
+  solver := toySolve_spec
+  supA := fun d _ => ⟨rfl, fun x hx => by rw [hx]⟩
+  supB := fun d _ => ⟨rfl, fun x hx => by rw [hx]⟩
+  fin := by
+    simp only [V3.normSq_def, V3.sub_x, V3.sub_y, V3.sub_z, EPS, MAXF, D3.Gen.utils__EPSILON,
+      D3.Gen.utils__MAX_FLOAT]
+    norm_num
+
+/-- the default tolerance satisfies `EPSILON ≤ tolerance` (hypothesis of `feasible`) -/
+example : (EPS : ℝ) ≤ D3.Gen.gjk__gjk_jolt__gjk_distance_jolt__tolerance := by
+  unfold EPS D3.Gen.utils__EPSILON D3.Gen.gjk__gjk_jolt__gjk_distance_jolt__tolerance; norm_num
+
+/-- the model with the C18 solver plugged in, run in exact rational arithmetic on the two
+singletons above: two iterations, exit `NoIntersection` (code 0), `d = 2` -/
+example : (match gjkDistanceDefault (α := Rat) joltSolver joltBary (fun _ => ⟨2, 0, 0⟩)
+      (fun _ => ⟨0, 0, 0⟩) ⟨V3.zero, V3.zero, V3.zero, V3.zero⟩ 10 with
+    | .ok r => some (r.dist, r.exit.code, r.iterations)
+    | .error _ => none) = some (2, 0, 2) := by decide +kernel
+
 end C01
 end D3
